@@ -82,6 +82,8 @@ def gen(rng, i, cancels=True):
                 jb["K2"] = rng.choice([300, 400, 401, 402, 700])
             if rng.random() < 0.25:
                 jb["cancel_in_policy"] = rng.choice([1, 2])
+        if rng.random() < 0.2:
+            jb["probe"] = [rng.choice([0, 150, 300, 350, 400, 401]), rng.choice([1, 2, 3]), rng.choice([0, 50, 100])]
         jobs.append(jb)
     if rng.random() < 0.25 and pol["kind"] == "exc":
         # several submissions ending their attempts at the same instant with different back-offs (per-call policies):
@@ -132,6 +134,17 @@ def stopped_tasks(quick):
             swept.append({"scen": "retry", "params": p2,
                           "strat": ["phases", [["RetryExecutor-r", n, 300], ["cab1", 10000], ["RetryExecutor-r", 10000]]],
                           "gran": "line", "facts": dict(facts_of(p2), directed=True)})
+    # ... and a client asking running() while the future is cancelled between two retries (bytecode granularity: the
+    # query reads the future's delegate more than once)
+    for fl in ("manual",):
+        p3 = {"flavour": fl, "policy": {"kind": "exc", "max_attempts": 3, "sleep": 400, "exponent": 1, "max_sleep": 400},
+              "jobs": [{"script": ["E", "V"], "S": 0, "C": False, "K": 500, "probe": [500, 2, 0]}],
+              "dur": 300, "horizon": 3000, "workers": 1}
+        for n in range(1, 90, 2 if quick else 1):
+            for a, b in (("probe1", "can1"), ("can1", "probe1")):
+                swept.append({"scen": "retry", "params": p3,
+                              "strat": ["phases", [[a, n, 500], [b, 10000], [a, 10000]]],
+                              "gran": "instr", "facts": dict(facts_of(p3), directed=True)})
     return swept
 
 
